@@ -155,10 +155,10 @@ static int lowest_runnable(int except = -1) {
   for (int i = 0; i < g_ntasks; i++) if (i != except && g_tasks[i].state == T_RUNNABLE) return i;
   return -1;
 }
-static int count_runnable() {
+static inline bool more_than_one_runnable() {
   int n = 0;
-  for (int i = 0; i < g_ntasks; i++) if (g_tasks[i].state == T_RUNNABLE) n++;
-  return n;
+  for (int i = 0; i < g_ntasks; i++) if (g_tasks[i].state == T_RUNNABLE && ++n > 1) return true;
+  return false;
 }
 static int random_runnable(int except) {
   int n = 0;
@@ -213,13 +213,13 @@ static void decision_point(bool must_leave, bool is_sync, bool conflict) {
   } else {
     switch (g_cfg.strategy) {
       case S_SYNC:
-        if (is_sync && count_runnable() > 1 && g_rng.chance(1, 2)) next = random_runnable(me);
+        if (is_sync && more_than_one_runnable() && g_rng.chance(1, 2)) next = random_runnable(me);
         break;
       case S_RANDOM:
-        if (count_runnable() > 1 && (is_sync ? g_rng.chance(1, 2) : g_rng.chance(1, g_cfg.p_den))) next = random_runnable(me);
+        if ((is_sync ? g_rng.chance(1, 2) : g_rng.chance(1, g_cfg.p_den)) && more_than_one_runnable()) next = random_runnable(me);
         break;
       case S_CONFLICT:
-        if (count_runnable() > 1 && ((conflict && g_rng.chance(1, 2)) || (is_sync && g_rng.chance(1, 3)) || g_rng.chance(1, g_cfg.p_den * 16)))
+        if (((conflict && g_rng.chance(1, 2)) || (is_sync && g_rng.chance(1, 3)) || g_rng.chance(1, g_cfg.p_den * 16)) && more_than_one_runnable())
           next = random_runnable(me);
         break;
       case S_PCT: {
@@ -453,10 +453,18 @@ static void shadow_access(uintptr_t addr, size_t size, bool write, uintptr_t pc)
     }
   }
   uint32_t my = mk_epoch(g_cur, t.vc.c[g_cur]);
+  Word *wp = nullptr;
+  uintptr_t wkey = 0;
   for (size_t k = 0; k < size; k++) {
     uintptr_t a = addr + k;
-    Word &w = *g_shadow.get(a >> 3);
+    if (!wp || (a >> 3) != wkey) { wkey = a >> 3; wp = g_shadow.get(wkey); }
+    Word &w = *wp;
     Cell &c = w.b[a & 7];
+    // fast paths: the same task touching the byte again within the same epoch adds no information
+    if (c.w_epoch == my && (!write || !(c.r_epoch[0] | c.r_epoch[1] | c.r_epoch[2] | c.r_epoch[3]))) continue;
+    if (!write && (c.r_epoch[0] == my || c.r_epoch[1] == my || c.r_epoch[2] == my || c.r_epoch[3] == my) &&
+        (!c.w_epoch || ep_tid(c.w_epoch) == g_cur || ep_clk(c.w_epoch) <= t.vc.c[ep_tid(c.w_epoch)]))
+      continue;
     if (c.w_epoch) {
       int wt = ep_tid(c.w_epoch);
       if (wt != g_cur && ep_clk(c.w_epoch) > t.vc.c[wt]) report_race(a, write, pc, wt, true, c.w_pc);
